@@ -757,3 +757,208 @@ func TestVerifC13ConcurrentHash(t *testing.T) {
 	run.Floor("key_histories_checked", int64(nh)*2*9/10)
 	run.Floor("ops_overlapping_previous_on_same_key", int64(nh)*50)
 }
+
+// ---- concurrent family with expiry: CleanupExpired racing writes on expired keys ----
+//
+// Every key (a few target keys + thousands of filler keys, so that a cleanup scan is
+// long) is first written sequentially with a 5 ms ttl; the concurrent phase starts only
+// once the clock is CERTAINLY past (return of the last write + ttl): "expired" is a fact,
+// no timing judgement is made inside the phase. Reads are lazy, so the expired entries
+// are still in the map. Then cleaners call CleanupExpired while writers do
+// Set(ttl 0) / SetNX(ttl 0) / Get with unique values on the target keys; afterwards one
+// client reads every target key. Per key the history is checked with porcupine against
+// the register model with initial state "absent" (nothing is ever deleted by a client
+// and ttl 0 never expires), and directly: an acknowledged write must still be readable.
+
+const c13eTTL = 5 * time.Millisecond
+
+type c13eStats struct {
+	writesOverlapCleanup int64
+	keysChecked          int64
+	cleanups             int64
+	fillers              int64
+}
+
+func c13RunExpiryHistory(run *vk.Run, hidx int, r *rand.Rand, st *c13eStats) {
+	s := New(context.Background())
+	defer s.Close()
+	nfill := 2000 + r.Intn(4000)
+	nkeys := 8 + r.Intn(17)
+	keys := make([]string, nkeys)
+	for i := 0; i < nfill; i++ {
+		s.Set(fmt.Sprintf("fill-%d", i), int64(i), c13eTTL)
+	}
+	for i := range keys {
+		keys[i] = fmt.Sprintf("x%d", i)
+		s.Set(keys[i], "old", c13eTTL)
+	}
+	deadline := time.Now().Add(c13eTTL) // >= every entry's expiration
+	for tries := 0; !time.Now().After(deadline) && tries < 2000; tries++ {
+		time.Sleep(2 * time.Millisecond)
+	}
+	if !time.Now().After(deadline) {
+		run.Count("watchdog", 1)
+		return
+	}
+	st.fillers += int64(nfill)
+
+	ncl := 1 + r.Intn(2)
+	nw := 4 + r.Intn(3)
+	if os.Getenv("VERIF_RACE") == "1" {
+		nw = 3
+	}
+	// writer scripts (pure function of r)
+	scripts := make([][]c13cIn, nw)
+	delays := make([]int, nw)
+	for g := 0; g < nw; g++ {
+		delays[g] = r.Intn(6000)
+		n := 0
+		for pass := 0; pass < 3; pass++ {
+			for _, ki := range r.Perm(nkeys) {
+				in := c13cIn{Model: 'r', Key: keys[ki]}
+				x := r.Intn(100)
+				switch {
+				case (pass == 0 && x < 60) || (pass > 0 && x < 35):
+					in.Op = "SetNX"
+				case (pass == 0 && x < 90) || (pass > 0 && x < 55):
+					in.Op = "Set"
+				default:
+					in.Op = "Get"
+				}
+				if in.Op != "Get" {
+					in.Val = fmt.Sprintf("g%dn%d", g, n)
+				}
+				n++
+				scripts[g] = append(scripts[g], in)
+			}
+		}
+	}
+	base := time.Now()
+	bar := &c13cBarrier{n: int32(ncl + nw)}
+	var done sync.WaitGroup
+	recs := make([][]c13cRec, nw)
+	type span struct{ call, ret int64 }
+	cspans := make([][]span, ncl)
+	var sink int64
+	for c := 0; c < ncl; c++ {
+		done.Add(1)
+		go func(c int) {
+			defer done.Done()
+			bar.arrive()
+			for k := 0; k < 2; k++ {
+				call := int64(time.Since(base))
+				s.CleanupExpired()
+				cspans[c] = append(cspans[c], span{call, int64(time.Since(base))})
+			}
+		}(c)
+	}
+	for g := 0; g < nw; g++ {
+		done.Add(1)
+		go func(g int) {
+			defer done.Done()
+			bar.arrive()
+			for i := 0; i < delays[g]; i++ { // stagger the first write across the scan
+				atomic.AddInt64(&sink, 1)
+			}
+			for _, in := range scripts[g] {
+				call := int64(time.Since(base))
+				out := c13cApply(s, in)
+				recs[g] = append(recs[g], c13cRec{g: g, in: in, out: out, call: call, ret: int64(time.Since(base))})
+			}
+		}(g)
+	}
+	done.Wait()
+	run.Count("start_barrier_gave_up", int64(atomic.LoadInt32(&bar.gaveUp)))
+	final := map[string]c13cRec{}
+	for _, k := range keys {
+		in := c13cIn{Model: 'r', Op: "Get", Key: k}
+		call := int64(time.Since(base))
+		out := c13cApply(s, in)
+		final[k] = c13cRec{g: nw, in: in, out: out, call: call, ret: int64(time.Since(base))}
+	}
+	var spans []string
+	for c := range cspans {
+		for _, sp := range cspans[c] {
+			spans = append(spans, fmt.Sprintf("cleaner%d CleanupExpired [%d,%d]", c, sp.call, sp.ret))
+			st.cleanups++
+		}
+	}
+	for _, k := range keys {
+		var kr []c13cRec
+		acked := false
+		for g := range recs {
+			for _, rc := range recs[g] {
+				if rc.in.Key != k {
+					continue
+				}
+				kr = append(kr, rc)
+				if rc.out.Err == "panic" {
+					run.Violation("C13:conc-expiry|op="+rc.in.Op+"|panic", map[string]any{"history": hidx, "op": rc.in.String(), "panic": rc.out.V})
+				}
+				if (rc.in.Op == "Set" && rc.out.Err == "ok") || (rc.in.Op == "SetNX" && rc.out.B) {
+					acked = true
+				}
+				if rc.in.Op != "Get" {
+					for c := range cspans {
+						for _, sp := range cspans[c] {
+							if rc.call <= sp.ret && sp.call <= rc.ret {
+								st.writesOverlapCleanup++
+							}
+						}
+					}
+				}
+			}
+		}
+		kr = append(kr, final[k])
+		sort.Slice(kr, func(i, j int) bool { return kr[i].call < kr[j].call })
+		st.keysChecked++
+		detail := func() map[string]any {
+			return map[string]any{"history": hidx, "key": k, "fillers": nfill, "writers": nw, "cleaners": ncl,
+				"precondition": "key and fillers written with ttl 5 ms, phase started certainly after their expiry; no client deletes; all writes use ttl 0",
+				"cleanups": spans, "history_by_call_time": c13cDump(kr, 200)}
+		}
+		if acked && final[k].out.Err == "notfound" {
+			run.Violation("C13:conc-expiry|acked-ttl0-write-lost|concurrent=CleanupExpired", detail())
+		}
+		ops := make([]porcupine.Operation, 0, len(kr))
+		for _, rc := range kr {
+			ops = append(ops, porcupine.Operation{ClientId: rc.g, Input: rc.in, Call: rc.call, Output: rc.out, Return: rc.ret})
+		}
+		switch porcupine.CheckOperationsTimeout(c13cModel, ops, c13cCheckTimeout(run)) {
+		case porcupine.Ok:
+			run.Count("key_histories_linearizable", 1)
+		case porcupine.Unknown:
+			run.Count("checker_timeout_unknown", 1)
+			st.keysChecked--
+		case porcupine.Illegal:
+			run.Count("key_histories_not_linearizable", 1)
+			run.Violation("C13:nonlinearizable|model=expired-key-vs-cleanup", detail())
+		}
+	}
+}
+
+func TestVerifC13ConcurrentExpiry(t *testing.T) {
+	vk.Quiet()
+	run := vk.Start(t, "C13", "concurrent-expiry")
+	defer run.Finish()
+	run.Rule("per history: 8-24 target keys + 2000-6000 filler keys written with ttl 5 ms, wait until certainly expired (entries still in the map: lazy expiry), then 1-2 goroutines calling CleanupExpired twice race 4-6 writers doing Set(ttl 0)/SetNX(ttl 0)/Get with unique values over the target keys (3 passes, first writes staggered across the scan), then a final Get of every key; per key porcupine register model from 'absent' + direct rule 'acknowledged ttl-0 write stays readable'; distinct = (writers, cleaners, filler bucket)")
+	nh := c13cBudget(run, 60, 1500)
+	r := run.Rand("conc-expiry")
+	st := &c13eStats{}
+	for h := 0; h < nh; h++ {
+		run.Case("conc|expired-keys+CleanupExpired", map[string]any{"history": h})
+		hr := rand.New(rand.NewSource(r.Int63()))
+		c13RunExpiryHistory(run, h, hr, st)
+		run.Eval(1)
+		run.Distinct(fmt.Sprintf("h%d", h%12))
+		if run.Violations() >= 10 {
+			break
+		}
+	}
+	run.Count("writes_overlapping_a_cleanup_call", st.writesOverlapCleanup)
+	run.Count("key_histories_checked", st.keysChecked)
+	run.Count("cleanup_calls", st.cleanups)
+	run.Count("expired_filler_keys", st.fillers)
+	run.Floor("key_histories_checked", int64(nh)*8*9/10)
+	run.Floor("writes_overlapping_a_cleanup_call", int64(nh))
+}
